@@ -3,6 +3,7 @@ package verifharness
 import (
 	"context"
 	"fmt"
+	"github.com/form3tech-oss/f1/v2/internal/verifsim/simsignal"
 	"io"
 	"log/slog"
 	"os"
@@ -100,8 +101,16 @@ func h1Main(env *Env, c *H1Cfg, st *h1State) {
 	if nruns < 1 {
 		nruns = 1
 	}
+	simsignal.ClearAll()
 	for i := 0; i < nruns; i++ {
 		h1OneRun(env, c, st, i)
+		if c.SignalBetweenRuns && i+1 < nruns {
+			// a signal while no run is active: nobody is interrupted by it, now or later
+			// (some time after the run: a second signal racing the end of an interrupted run legitimately exits the process)
+			time.Sleep(50 * time.Millisecond)
+			simsignal.Deliver(os.Interrupt, 1<<30)
+			env.Hit("fault.signal_between_runs")
+		}
 	}
 	st.Finished = true
 }
@@ -132,6 +141,17 @@ func h1OneRun(env *Env, c *H1Cfg, st *h1State, runIdx int) {
 
 	ctx, cancel := context.WithCancel(context.Background())
 	doCancel := func() { atomicCancel(env, &g.Cancelled, &g.CancelNs, &g.CancelSeq, cancel) }
+	if c.Driver == "f1" {
+		// the public entry point listens for SIGINT / SIGTERM itself: the interrupt is a signal
+		sigGen := simsignal.Gen()
+		doCancel = func() {
+			// one signal per run (a second one makes f1 exit the process, by design), and none from a hook that fires
+			// after its run is over
+			if !g.DoReturned && !g.Cancelled {
+				signalCancel(env, sigGen, &g.Cancelled, &g.CancelNs, &g.CancelSeq)
+			}
+		}
+	}
 	if runIdx == 0 {
 		switch {
 		case c.CancelAtNs < 0:
